@@ -11,8 +11,9 @@ def init() -> None:
     replacements.init()
 
 
-def render(source: str) -> str:
-    reader = io.Reader(source)
+def render(source: str, nesting: int = 0) -> str:
+    '''Render source; nesting is the number of line macro expansions around it (the content of a container block).'''
+    reader = io.Reader(source, nesting)
     writer = io.Writer()
     while not reader.eof():
         reader.skipBlankLines()
